@@ -50,12 +50,13 @@ CARRIER_OF = {"real": "ereal", "log": "ereal", "viterbi": "trop", "bool": "bool"
 SEMIRINGS = ["real", "log", "viterbi", "bool"]
 
 ASSUMPTIONS = [
-    "the law records sr_ring / sr_ordered / sr_star are premises of the GENERIC C09 theorems only; for the three carriers (ereal, trop, bool) they are proved by C08 (Proofs/SemiringLaws.v) and discharged in Proofs/Instances_solve.v: C09_solve_model_least_{bool,real,viterbi}, C09_oracle_sound_{bool,real,viterbi}, ... carry no law premise",
+    "the law records sr_ring / sr_ordered / sr_star are premises of the GENERIC C09 theorems only; for the three carriers (ereal, trop, bool) they are proved by C08 (Proofs/SemiringLaws.v) and discharged in Proofs/Instances_solve.v: C09_solve_model_least_{bool,real,viterbi}, C09_oracle_sound_{bool,real,viterbi}, C09_multi_solve_refines_{bool,real,viterbi}, C09_multi_solve_equals_dense_solve_{bool,real,viterbi}, C09_mul_star_least_{bool,real,viterbi} (Proofs/Instances_multisolve.v), ... carry no law premise",
     "floats: Real outputs are compared with the exact model within 1e-9 relative + 1e-12 absolute; Log inputs are log(v) of the exact grid value and exp(output) is compared likewise (math.log / math.exp are trusted); Viterbi and Bool are exact",
     "torch.linalg.solve is an oracle argument of real_solve_model ('returns the unique solution of (I-A)x=b or fails'); its observed answer is recorded by wrapping it and fed to the model",
     "reshape/flatten of blocks is modelled as the identity on row-major data; the harness enumerates entries by explicit indexing",
     "_order_nonterminals iterates Python sets; the model iterates them in ascending key order, which is CPython's order for the small non-negative int keys used when the order model is compared (checked at run time on every set); multi_solve itself is run with the order the implementation chose",
     "PatternedTensor.solve is compared with the dense model on the densified arguments (its axis computation is not modelled: tier-B item)",
+    "C09_multi_solve_refines* assume what a Python dict guarantees: the keys of the shapes, of a and of b are duplicate-free (NoDup (map fst ...)), and the elimination order is a duplicate-free enumeration of the shape keys (proved for the model of _order_nonterminals: C09_order_nonterminals_enumerates / C09_multi_solve_code_order)",
 ]
 
 FK_F18 = "F18_patterned_solve_disjoint_support"
@@ -676,7 +677,6 @@ def run(tier, seed):
     return cov, violations
 
 OPEN_ITEMS = [
-    "refinement multi_solve_model (list-of-blocks LU + back-substitution with presence tests, a[x,z]a[z,z]* computed by a transposed solve) -> block elimination belim of C09_block_elimination_least / C09_matrix_block_elimination_least is not proved (needs (A^T)* = (A*)^T); every run checks in Coq that multi_solve_model equals the dense solve_model of the assembled system (verdict 13 otherwise) and judges the implementation output with the dense oracles",
     "bool_series_exact_upto3 (bounded in-kernel check, n <= 3, in Proofs/SolveCarriers.v) is kept beside the unbounded C09_least_is_series_bool_exact",
     "tier B: PatternedTensor.solve's solution-axis iteration (terminates, covers the support) is not modelled; its output is judged densely",
 ]
@@ -718,7 +718,7 @@ def replay(path):
 
 MANIFEST = dict(
     level="proof",
-    text="Coq theorems, generic over an abstract ordered star-semiring (law records as premises): recursive elimination of the unknowns in ANY order yields a solution of x = A x + b (from star-unfold alone) that is below every pre-solution (from star-induction); the in-place Gauss-Jordan loop of Semiring.solve_thunks (modelled statement by statement on lists, vector and matrix right-hand sides) computes the same vector; the partial sums of sum A^k b are below it, with equality at N = dim in bool; the block version over an abstract ordered star-semimodule (non-commutative coefficients) and its instance by N x N matrices with the dense solver on the diagonal blocks; RealSemiring's LU fast path agrees with the generic routine when its oracle returns the unique rational solution; multi_mv equals the dense product of the assembled blocks (also transposed); the model of _order_nonterminals returns a duplicate-free enumeration of the keys for every set-iteration order; soundness/completeness of the executable oracles is_solution_b, series_le_b, cert_le_b, is_least_solution_b; Viterbi (finding F2, repaired in /repo commit d2ec7af): the former star (star(0)=inf) still yields a solution, a refutation witness for leastness, and leastness under the guard 'no pivot is exactly 0'. Tied to /repo by running model and implementation on the same exact-grid inputs (dense n <= 4, 4 semirings; block systems with every presence pattern of 2 blocks and sampled 3/4 blocks, transpose, recorded elimination order; PatternedTensor.solve on typed sparsity patterns) and judging every implementation output with the extracted oracles; arguments are byte-snapshotted.",
-    note="Trusted: Coq kernel + vm_compute, extraction cross-checked in the kernel on a sample and on every non-zero verdict, the Python harness (float <-> rational conversion, math.log/exp for the Log reading, 1e-9 tolerance), semiring law records of the carriers (premises; proved under C08). Open: refinement of multi_solve_model to the block elimination (checked at run time against the dense model instead); PatternedTensor.solve's axis iteration (tier B). F2 (Viterbi star at 0) was repaired in /repo commit d2ec7af; a regression shows as 'not the least solution'. Known findings: F18 (PatternedTensor.solve AssertionError on disjoint support), F21 (new: Real/Log return huge finite numbers for divergent systems whose pivots are not float-exact).",
+    text="Coq theorems, generic over an abstract ordered star-semiring (law records as premises): recursive elimination of the unknowns in ANY order yields a solution of x = A x + b (from star-unfold alone) that is below every pre-solution (from star-induction); the in-place Gauss-Jordan loop of Semiring.solve_thunks (modelled statement by statement on lists, vector and matrix right-hand sides) computes the same vector; the partial sums of sum A^k b are below it, with equality at N = dim in bool; the block version over an abstract ordered star-semimodule (non-commutative coefficients) and its instance by N x N matrices with the dense solver on the diagonal blocks; RealSemiring's LU fast path agrees with the generic routine when its oracle returns the unique rational solution; multi_mv equals the dense product of the assembled blocks (also transposed); the model of _order_nonterminals returns a duplicate-free enumeration of the keys for every set-iteration order; the matrix star over a commutative ordered star-semiring: A* = A* A + 1 from the left laws alone, (A^T)* = (A*)^T, the least solution of X = X A + B is (solve (A^T) (B^T))^T = B . A* (C09_right_solve_least, C09_mul_star_least, C09_solve_transposed, C09_star_transpose); C09_multi_solve_refines: multi_solve_model (block LU over the PRESENT blocks with a[x,z] := a[x,z] a[z,z]* computed by the transposed solve, Schur updates, block back-substitution) computes, block by block, the block elimination belim instantiated with matrices, for every key set with shapes, every presence pattern (absent = zero: annihilation, solve of a zero matrix = identity), every duplicate-free elimination order and both transpose flags; hence the assembled result is the LEAST solution of x = A x + b of the assembled dense system and equals solve_model of it (verdict 13 of the multi check is impossible), also with the order computed by the model of _order_nonterminals (empty a: order [], result b); soundness/completeness of the executable oracles is_solution_b, series_le_b, cert_le_b, is_least_solution_b; Viterbi (finding F2, repaired in /repo commit d2ec7af): the former star (star(0)=inf) still yields a solution, a refutation witness for leastness, and leastness under the guard 'no pivot is exactly 0'. Tied to /repo by running model and implementation on the same exact-grid inputs (dense n <= 4, 4 semirings; block systems with every presence pattern of 2 blocks and sampled 3/4 blocks, transpose, recorded elimination order; PatternedTensor.solve on typed sparsity patterns) and judging every implementation output with the extracted oracles; arguments are byte-snapshotted.",
+    note="Trusted: Coq kernel + vm_compute, extraction cross-checked in the kernel on a sample and on every non-zero verdict, the Python harness (float <-> rational conversion, math.log/exp for the Log reading, 1e-9 tolerance), semiring law records of the carriers (premises of the generic theorems; proved under C08 and discharged in the _bool/_real/_viterbi instances). Open: PatternedTensor.solve's axis iteration (tier B). The refinement of multi_solve_model to the block elimination is proved (C09_multi_solve_refines*); the run-time comparison with the dense model (verdict 13) is kept as a redundant cross-check. F2 (Viterbi star at 0) was repaired in /repo commit d2ec7af; a regression shows as 'not the least solution'. Known findings: F18 (PatternedTensor.solve AssertionError on disjoint support), F21 (new: Real/Log return huge finite numbers for divergent systems whose pivots are not float-exact).",
     technique="Coq proof (model + theorems) + model/implementation correspondence with verified-spec oracles",
     design_ref="DESIGN.md section 6, C09; Appendix A.5, A.7; Appendix C (C09)")
